@@ -83,6 +83,7 @@ class ReferenceImpl(Derivable, Impl):
         # The value may change: clear the values calculated by reading
         # this reference through attribute access to its space
         self.model.clear_attr_referrers(self)
+        self.refmode = bases[0].refmode     # The base may have changed
         if bases[0].has_interface():
 
             if self.refmode == "absolute":
